@@ -240,3 +240,187 @@ def rule_op_table(ctx: RuleContext, p: Program, rid: str) -> None:
     ok = alts is not None and sorted(got) == alts and got == {'+': 'same', '-': 'neg'}
     ctx.check(ok, rid, 'models.number_unary_expr:NumberUnaryExpr.value', f'{got} vs UNARY_OP={alts}',
               f'NumberUnaryExpr.value maps {got}; grammar UNARY_OP = {alts}', f.where, note=f'{got}')
+
+
+# ------------------------------------------------------------------ GRAM-FIELDS
+class _Shape:
+    def __init__(self, g: rx.Grammar) -> None:
+        self.g = g
+        self.by_origin: dict[str, list] = {}
+        for r in g.rules:
+            self.by_origin.setdefault(str(r.origin.name), []).append(r)
+        self.memo: dict[str, set[tuple]] = {}
+        self.active: set[str] = set()
+
+    def tree_name(self, origin: str) -> str:
+        rs = self.by_origin.get(origin, [])
+        for r in rs:
+            if r.alias:
+                return str(r.alias)
+            if r.options and r.options.template_source:
+                return str(r.options.template_source)
+        return origin
+
+    def kinds(self, origin: str, seen: frozenset[str] = frozenset()) -> frozenset[tuple[str, str]]:
+        """what a reference to rule `origin` can turn into as a child: itself, or (for ?rules) its single child"""
+        rs = self.by_origin.get(origin, [])
+        if not rs or origin in seen:
+            return frozenset({('R', self.tree_name(origin))})
+        out: set[tuple[str, str]] = set()
+        for r in rs:
+            if r.options and r.options.expand1 and len(r.expansion) == 1 and not any(r.options.empty_indices or ()):
+                s = r.expansion[0]
+                if s.is_term:
+                    out.add(('T', str(s.name)))
+                else:
+                    out |= self.kinds(str(s.name), seen | {origin})
+            else:
+                out.add(('R', self.tree_name(origin)))
+        return frozenset(out)
+
+    def children(self, origin: str) -> set[tuple]:
+        """set of child sequences (after the builder's own filtering of *_ subtrees); elements are frozensets of kinds"""
+        if origin in self.memo:
+            return self.memo[origin]
+        if origin in self.active:
+            return {('<rec>',)}
+        self.active.add(origin)
+        result: set[tuple] = set()
+        for r in self.by_origin.get(origin, []):
+            ei = list(r.options.empty_indices) if r.options and r.options.empty_indices else []
+            if ei:
+                s = ''.join(str(int(b)) for b in ei)
+                nones = [len(ones) for ones in s.split('0')]
+            else:
+                nones = [0] * (len(r.expansion) + 1)
+            seqs: list[tuple] = [()]
+            for i, sym in enumerate(r.expansion):
+                pre = tuple(frozenset({('None', '')}) for _ in range(nones[i]))
+                seqs = [q + pre for q in seqs]
+                name = str(sym.name)
+                if sym.is_term:
+                    if getattr(sym, 'filter_out', False):
+                        continue
+                    seqs = [q + (frozenset({('T', name)}),) for q in seqs]
+                elif name.startswith('_'):
+                    sub = self.children(name)
+                    new = []
+                    for q in seqs:
+                        for t in sub:
+                            if t == ('<rec>',):
+                                new.append(q + ('<rec>',))
+                            else:
+                                new.append(q + t)
+                    seqs = new
+                else:
+                    k = self.kinds(name)
+                    if all(kk[0] == 'R' and kk[1].endswith('_') for kk in k):
+                        continue          # dropped whole by ModelBuilder._build_tree
+                    seqs = [q + (k,) for q in seqs]
+            post = tuple(frozenset({('None', '')}) for _ in range(nones[len(r.expansion)]))
+            result |= {q + post for q in seqs}
+        self.active.discard(origin)
+        # left-recursive helper (x+): its non-recursive alternatives repeated; only supported when they vanish after filtering
+        if any('<rec>' in q for q in result):
+            base = {q for q in result if '<rec>' not in q}
+            if base <= {()}:
+                result = {()}
+            else:
+                raise AnalysisError(f'GRAM-FIELDS: rule {origin} repeats visible children inside an inlined rule')
+        self.memo[origin] = result
+        return result
+
+
+def _type_rules(p: Program, m, e: Optional[ast.AST], depth: int = 0) -> Optional[set[str]]:
+    """RULE names of the classes named by a field type expression (unions, aliases)"""
+    if e is None or depth > 60:
+        return None
+    if isinstance(e, ast.BinOp) and isinstance(e.op, ast.BitOr):
+        a, b = _type_rules(p, m, e.left, depth + 1), _type_rules(p, m, e.right, depth + 1)
+        return None if a is None or b is None else a | b
+    if isinstance(e, ast.Subscript) and norm(e.value) in ('Union', 'typing.Union', 'Optional'):
+        parts = e.slice.elts if isinstance(e.slice, ast.Tuple) else [e.slice]
+        out: set[str] = set()
+        for x in parts:
+            r = _type_rules(p, m, x, depth + 1)
+            if r is None:
+                return None
+            out |= r
+        return out
+    if isinstance(e, ast.Constant) and isinstance(e.value, str):
+        try:
+            return _type_rules(p, m, ast.parse(e.value, mode='eval').body, depth + 1)
+        except SyntaxError:
+            return None
+    sym = p.resolve_expr(m, e)
+    out2: Optional[set[str]] = None
+    if isinstance(sym, ClassInfo):
+        n = p.class_const(sym, 'RULE')
+        if isinstance(n, ast.Constant):
+            out2 = {n.value}
+    elif isinstance(sym, Const):
+        out2 = _type_rules(p, sym.module, sym.node, depth + 1)
+    if out2 is None and isinstance(e, ast.Name):
+        # forward reference (imported only under TYPE_CHECKING, or `X = Any` at run time): the model classes of that name
+        rules = set()
+        for c in p.class_by_name.get(e.id, []):
+            n = p.class_const(c, 'RULE')
+            if isinstance(n, ast.Constant):
+                rules.add(n.value)
+        if rules:
+            out2 = rules
+    return out2
+
+
+def rule_gram_fields(ctx: RuleContext, p: Program, tcs: list, rid: str) -> None:
+    ctx.rule(rid, 'for every tree model with declared fields the child sequence the parser can hand to from_parsed_children '
+                  '(computed from the compiled grammar: inlined _rules, [optional] placeholders, filtered tokens, subtrees the '
+                  'builder drops) has one slot per constructor field, in order: required fields never None, optional fields only '
+                  'their own type or None, repeated fields a repeated{...} subtree; element types match the field types')
+    g = grammar(p)
+    sh = _Shape(g)
+    n = 0
+    for tc in tcs:
+        rule = p.class_const(tc.cls, 'RULE')
+        if not isinstance(rule, ast.Constant):
+            continue
+        rname = rule.value
+        if rname not in sh.by_origin:
+            ctx.fail(rid, f'{tc.cls.name}', f'RULE={rname!r}', f'{tc.cls.name}.RULE = {rname!r} is not a rule of the grammar', tc.cls.where)
+            continue
+        seqs = sh.children(rname)
+        n += 1
+        site = f'{tc.cls.module.name.split(".", 1)[1]}:{tc.cls.name}'
+        lens = {len(q) for q in seqs}
+        # hand-written from_parsed_children overrides may re-arrange children: only the arity is compared then
+        override = any('from_parsed_children' in c.attrs for c in [tc.cls, *tc.cls.all_subclasses()])
+        if lens != {len(tc.fields)}:
+            ctx.fail(rid, site, f'arity {sorted(lens)} vs {len(tc.fields)} fields',
+                     f'grammar rule {rname} yields {sorted(lens)} children but {tc.cls.name}.__init__ takes {len(tc.fields)} child fields '
+                     f'({[f.name for f in tc.fields]})', tc.cls.where)
+            continue
+        problems: list[str] = []
+        for i, f in enumerate(tc.fields):
+            kinds = set().union(*[q[i] for q in seqs])
+            has_none = ('None', '') in kinds or ('T', 'NEVER') in kinds
+            real = {k for k in kinds if k != ('None', '') and not (k[0] == 'T' and k[1].startswith('NEVER'))}
+            if f.kind == 'repeated':
+                if not real or not all(k[0] == 'R' and k[1] in ('repeated', 'repeated_sep') for k in real) or has_none and not real:
+                    problems.append(f'{f.name}: repeated field receives {sorted(kinds)}')
+                continue
+            if f.kind == 'required' and has_none:
+                problems.append(f'{f.name}: required field can receive None ({sorted(kinds)})')
+            if f.optional and not has_none and real:
+                pass   # an optional field that is always present is harmless
+            want = _type_rules(p, tc.cls.module, f.type_expr)
+            if want is None:
+                raise AnalysisError(f'GRAM-FIELDS: cannot resolve the type of {site}.{f.name}: {norm(f.type_expr) if f.type_expr else None}')
+            got = {('INDENT' if k[1] in ('indent', 'indent2') else k[1]) for k in real}
+            if override and not got:
+                continue
+            if not got <= want:
+                problems.append(f'{f.name}: declared {sorted(want)} but the grammar delivers {sorted(got - want)} at child {i}')
+        ctx.check(not problems, rid, site, '; '.join(problems) or f'{len(tc.fields)} slots', '; '.join(problems), tc.cls.where,
+                  note=f'{len(seqs)} child layouts, {len(tc.fields)} slots')
+    if n < 30:
+        raise AnalysisError(f'GRAM-FIELDS: only {n} classes compared with the grammar')
